@@ -36,6 +36,14 @@ def matrix(ctx):
              adaptive=True, dt=1e-6, dt_max=0.1, window=10, solve_time=1.5),
         dict(label="cross/terminals-unpinned/adaptive/dt_init=1e-6/dt_max=0.1", dev="cross", smooth=0, terminal_psi=None, adaptive=True, dt=1e-6, dt_max=0.1,
              solve_time=1.5),
+        # ONE SolverOptions object with a history: used with adaptive = False first, then options.adaptive = True on the uniform state;
+        # the step clause is judged against the dt_init / dt_max literals the harness constructed the options with
+        dict(label="options-history/fixed-step-solve-then-adaptive/bar", adaptive=True, func="stationary_options_history", options_history="fixed-step-solve", dev="bar",
+             dt=2.0 ** -7, dt_max=2.0 ** -4, solve_time=1.0),
+        dict(label="options-history/validate()-then-adaptive/ring/screening", adaptive=True, func="stationary_options_history", options_history="validate", dev="ring",
+             mel=0.6, dt=2.0 ** -8, dt_max=2.0 ** -5, screening=True, solve_time=0.4),
+        dict(label="options-history/options-of-a-loaded-fixed-step-Solution-then-adaptive/tee/unpinned", adaptive=True, func="stationary_options_history",
+             options_history="loaded-solution", dev="tee", dt=2.0 ** -7, dt_max=2.0 ** -4, solve_time=1.0),
         # histories in one process: a solver was built for a TWIN mesh (same triangulation, other geometry) before the observed run
         dict(label="history/film/raw-mesh-then-smoothed-twin/screening", func="stationary_history", dev="film", twin="smooth", order="AB", screening=True,
              adaptive=True, dt_max=0.125, solve_time=1.0),
@@ -129,6 +137,8 @@ def run(ctx):
     ctx.cov["pinned_at_1_default_step_control"] = {"runs": len(after), "steps_after_warm_up": after}
     if not after or max(after) < 10 or sum(1 for n in after if n >= 5) < 2:
         raise core.MachineryFailure(f"C17: step-control clause on terminal_psi = 1 devices not exercised after the window: {after}")
+    oh = {t["options_history"]: t["steps_at_dt_max"] for t in traces if t.get("options_history")}
+    ctx.cov["options_object_histories"] = {"steps_at_the_dt_max_literal": oh}
     # vacuity guard of the epsilon-form dimension
     ef = [t for t in traces if t.get("eps_form")]
     forms = sorted({t["eps_form"] for t in ef})
@@ -196,6 +206,8 @@ def run(ctx):
     if any(f.get("status") == "open" and f["key"].startswith("C17:rounding-seed") for f in ctx.findings) and not reproduced and not ctx.violations:
         raise core.MachineryFailure("open finding C17:rounding-seed no longer reproduces on the real code (no seeded run violates the un-weakened "
                                     "clause ExactlyStationary): update known_findings.json")
+    if (not {"fixed-step-solve", "validate", "loaded-solution"} <= set(oh) or min(oh.values()) < 5) and not ctx.violations:
+        raise core.MachineryFailure(f"C17: options-object histories not exercised (steps at the dt_max literal): {oh}")
     if len(unseeded) < 3 and not ctx.violations:
         raise core.MachineryFailure(f"C17: only {len(unseeded)} runs have a rounding seed below half an ulp (bit-exactness demanded); need >= 3")
     # canaries
